@@ -52,10 +52,11 @@ def memberSegs (mk : Member × Nat) : List Ar.Seg :=
 
 def buildSegs (mks : List (Member × Nat)) : List Ar.Seg := .lit Ar.magic :: (mks.map memberSegs).flatten
 
-/-- columns wide enough, name not ambiguous under trimming -/
+/-- columns wide enough, name not ambiguous under trimming (a name that itself ends in '/'
+    needs the GNU terminator: the reader removes exactly one trailing '/') -/
 def wfMember (m : Member) : Bool :=
   !m.name.isEmpty && (m.name ++ (if m.gnuSlash then [47] else [])).length ≤ 16
-  && Str.trimSpace m.name = m.name && m.name.getLast? != some 47
+  && Str.trimSpace m.name = m.name && (m.gnuSlash || m.name.getLast? != some 47)
   && (Str.fmtNat (m.timestamp.getD 0)).length ≤ 12 && (Str.fmtNat (m.ownerID.getD 0)).length ≤ 6
   && (Str.fmtNat (m.groupID.getD 0)).length ≤ 6 && m.mode.length ≤ 8 && Str.trimSpace m.mode = m.mode
   && (Str.fmtNat m.data.length).length ≤ 10
